@@ -48,6 +48,8 @@ def real_instances(tier):
         out.append(('line2', 'simple', 2, False, '1d', dict(sym_maxdist=False, sym_init=False, sym_minprob=True)))
         out.append(('zerolen3', 'simple', 2, False, '1d', dict(sym_maxdist=False, sym_init=False, sym_minprob=False)))
         out.append(('tiny2', 'simple', 2, False, '1d', dict(sym_maxdist=False, sym_init=False, sym_minprob=False)))
+        out.append(('dash4', 'simple', 2, False, '1d', dict(sym_maxdist=False, sym_init=False, sym_minprob=False)))
+        out.append(('dash4', 'dist', 2, False, '1d', dict(sym_maxdist=False, sym_init=False, sym_minprob=False)))
         out.append(('tiny2', 'dist', 1, False, '2d', dict(sym_maxdist=False, sym_init=False, sym_minprob=False)))
     else:
         for lay in greal.LAYOUTS:
